@@ -108,7 +108,7 @@ PROPS["C08"]["theorem_modules"] = PROPS["C08"]["theorem_modules"] + ["DecProofs.
 PROPS["C06"]["theorem_modules"] = PROPS["C06"]["theorem_modules"] + ["DecProofs.Properties.C06GenToInt64"]
 for _pid in ("C03", "C06", "C09", "C11", "C12", "C13", "C14", "C15", "C16", "C17", "C18", "C19", "C20"):
     PROPS[_pid]["theorem_modules"] = PROPS[_pid]["theorem_modules"] + ["DecProofs.Properties.SourceLevel"]
-PROPS["C14"]["theorem_modules"] = PROPS["C14"]["theorem_modules"] + ["DecProofs.Properties.C14GenFrame"]
+PROPS["C14"]["theorem_modules"] = PROPS["C14"]["theorem_modules"] + ["DecProofs.Properties.C14GenFrame", "DecProofs.Properties.C14GenHistory"]
 for _pid in ("C01", "C02"):
     PROPS[_pid]["theorem_modules"] = PROPS[_pid]["theorem_modules"] + ["DecProofs.Properties.C01GenMul", "DecProofs.Properties.C02GenCorrection"]
 PROPS["C06"]["theorem_modules"] = PROPS["C06"]["theorem_modules"] + ["DecProofs.Properties.C06GenToUInt32", "DecProofs.Properties.C06GenToUInt64"]
